@@ -4,6 +4,6 @@
 set -e
 D=$(mktemp -d /tmp/verif_baseline.XXXXXX)
 trap 'rm -rf "$D"' EXIT
-cmake -G Ninja -S /repo -B "$D" -DCMAKE_BUILD_TYPE=RelWithDebInfo >/dev/null
+cmake -G Ninja -S /repo -B "$D" -DCMAKE_BUILD_TYPE=RelWithDebInfo >/dev/null 2>&1
 cmake --build "$D" -j16 >/dev/null
 ctest --test-dir "$D" -j8 --timeout 900 --output-junit "$D/junit.xml" | tail -5
